@@ -156,7 +156,7 @@ class C06(Check):
             self.refs[(key, di, json.dumps(rop, sort_keys=True))] = res
 
     def ref_ops(self, entry):
-        out = [{'api': 'iter_errors'}, {'api': 'to_json'}]
+        out = [{'api': 'iter_errors'}, {'api': 'to_json'}, {'api': 'to_json_strict'}, {'api': 'to_json_skip'}]
         for p in entry.family.paths:
             out.append({'api': 'iter_decode_path', 'path': p})
         out.append({'api': 'res_all'})
@@ -199,6 +199,11 @@ class C06(Check):
                 if isinstance(r, tuple):
                     return {'k': 'ok', 'v': [json.loads(r[0]), ops.errors_canon(r[1], lazy)]}
                 return {'k': 'ok', 'v': [json.loads(r), []]}
+            if api in ('to_json_strict', 'to_json_skip'):
+                r = xmlschema.to_json(source, schema=schema, validation=api.rsplit('_', 1)[1])
+                if isinstance(r, tuple):
+                    return {'k': 'ok', 'v': [json.loads(r[0]), ops.errors_canon(r[1], lazy)]}
+                return {'k': 'ok', 'v': [json.loads(r), []]}
             if api == 'iter_decode_path':
                 items = []
                 errs = []
@@ -232,7 +237,8 @@ class C06(Check):
         di = rng.randrange(len(e.docs))
         data = e.docs[di].data
         depth = rng.choice([1, 1, 1, 1, 2, 3])
-        apis = ['iter_errors', 'iter_errors', 'is_valid', 'to_json', 'res_depth', 'res_iter', 'res_ns', 'res_loc']
+        apis = ['iter_errors', 'iter_errors', 'is_valid', 'to_json', 'to_json', 'to_json_strict', 'to_json_skip',
+                'res_depth', 'res_iter', 'res_ns', 'res_loc']
         if e.family.paths:
             apis += ['iter_decode_path', 'res_find']
         api = rng.choice(apis)
@@ -338,15 +344,24 @@ class C06(Check):
         api = op['api']
         base = {'api': api}
         nonseek = src.get('seekable', True) is False
+        def reason(r):
+            return canon.template((r.get('verr') or [None, r.get('msg', '')])[1])
         if got['k'] == 'raise':
-            if ref['k'] == 'raise' and ref['cls'] == got['cls']:
-                return None
+            if ref['k'] == 'raise':
+                if 'verr' in got and 'verr' in ref:
+                    if got['verr'][:2] == ref['verr'][:2]:
+                        return None
+                    # strict mode: both raise a validation error, but not the same one
+                    base.update(clause='strict-raises-other-error', lazy_reason=reason(got), eager_reason=reason(ref))
+                    return base
+                if ref['cls'] == got['cls']:
+                    return None
             if nonseek and got['cls'] == 'XMLResourceOSError':
                 return None   # documented: a non-seekable stream cannot be iterated again
-            base.update(clause='raise', cls=got['cls'], msg=canon.template(got.get('msg', '')))
+            base.update(clause='raise', cls=got['cls'], msg=reason(got))
             return base
         if ref['k'] == 'raise':
-            base.update(clause='no-raise', cls=ref['cls'])
+            base.update(clause='no-raise', cls=ref['cls'], eager_reason=reason(ref))
             return base
         g, r = got['v'], ref['v']
         if api == 'is_valid':
@@ -362,7 +377,7 @@ class C06(Check):
                 base.update(d)
                 return base
             return None
-        if api in ('to_json', 'iter_decode_path'):
+        if api in ('to_json', 'iter_decode_path', 'to_json_strict', 'to_json_skip'):
             d = compare_errors(g[1], r[1])
             if g[0] != r[0]:
                 base.update(clause='data', diff=data_diff(g[0], r[0]))
